@@ -849,6 +849,29 @@ Proof.
   - destruct (Hf eq_refl) as (E & Hb & Ho & H4 & Hl). rewrite E. apply AppendFloat64_src; auto.
 Qed.
 
+(* the slice form in integer mode (DurationFieldInteger): no float text is involved *)
+Lemma AppendDurations_int_loop fo fq unit prec : unit <> 0 -> forall (l : list dval) dst,
+  AppendDurations_loop1 fo fq (map d_ns l) unit true prec dst =
+  Ok (LExit (fold_left (fun d v => JsonEnc.AppendDuration (d ++ [44%N]) v unit true prec) l dst)).
+Proof.
+  intros Hu l; induction l as [|v l IH]; intros dst; [reflexivity|]. cbn [map AppendDurations_loop1 fold_left].
+  rewrite (AppendDuration_src fo fq (dst ++ [44%N]) v unit true prec Hu) by (intros; discriminate). cbn [bind]. cbv zeta. apply IH.
+Qed.
+
+Theorem AppendDurations_int_src fo fq dst (l : list dval) unit prec : unit <> 0 ->
+  JsonSrc.AppendDurations fo fq dst (map d_ns l) unit true prec = Ok (JsonEnc.AppendDurations dst l unit true prec).
+Proof.
+  intros Hu. unfold JsonSrc.AppendDurations, JsonEnc.AppendDurations, append_slice. destruct l as [|v0 rest]; [reflexivity|].
+  cbn [map]. rewrite len_cons. pose proof (len_nonneg (map d_ns rest)) as Hr.
+  replace (1 + len (map d_ns rest) =? 0) with false by lia. cbv zeta.
+  rewrite inb_true by (rewrite len_cons; lia). rewrite guard_true. change (idx 0 (d_ns v0 :: map d_ns rest) 0) with (d_ns v0).
+  rewrite (AppendDuration_src fo fq (dst ++ [91%N]) v0 unit true prec Hu) by (intros; discriminate). cbn [bind].
+  destruct (1 <? 1 + len (map d_ns rest)) eqn:E1.
+  - rewrite slice_ok_true by (rewrite ?len_cons; lia). rewrite guard_true.
+    rewrite <- (len_cons (d_ns v0)). rewrite slice_tail. rewrite AppendDurations_int_loop by auto. reflexivity.
+  - assert (rest = []) by (destruct rest; [auto|cbn [map] in E1; rewrite len_cons in E1; pose proof (len_nonneg (map d_ns rest)); lia]). subst rest. reflexivity.
+Qed.
+
 (* ---------- summary: every translated function of internal/json refines the model ---------- *)
 Definition strs_ok (vals : list (list N)) : Prop := Forall (fun s => bytes_ok s /\ len_ok s) vals.
 
@@ -893,7 +916,9 @@ Definition json_source_refinement : Prop :=
   (forall fo fq dst d unit useInt prec, unit <> 0 ->
      (useInt = false -> fq (d_ns d) unit = mk64 (f_bits (d_quot d)) /\ (f_bits (d_quot d) < 2 ^ 64)%N /\ fo_agrees fo (d_quot d) prec /\
                         (4 <= length (f_txt_e (d_quot d)))%nat /\ len_ok (dst ++ f_txt_e (d_quot d))) ->
-     JsonSrc.AppendDuration fo fq dst (d_ns d) unit useInt prec = Ok (JsonEnc.AppendDuration dst d unit useInt prec)).
+     JsonSrc.AppendDuration fo fq dst (d_ns d) unit useInt prec = Ok (JsonEnc.AppendDuration dst d unit useInt prec)) /\
+  (forall fo fq dst (l : list dval) unit prec, unit <> 0 ->
+     JsonSrc.AppendDurations fo fq dst (map d_ns l) unit true prec = Ok (JsonEnc.AppendDurations dst l unit true prec)).
 
 Theorem json_source_refines_model : json_source_refinement.
 Proof.
@@ -902,7 +927,7 @@ Proof.
           | apply AppendStrings_src | apply AppendArrayDelim_src | apply AppendBool_src | apply AppendBools_src
           | apply AppendInts_src | apply AppendInts8_src | apply AppendInts16_src | apply AppendInts32_src | apply AppendInts64_src
           | apply AppendUints_src | apply AppendUints8_src | apply AppendUints16_src | apply AppendUints32_src | apply AppendUints64_src
-          | apply AppendTime_src | apply AppendTimes_src | apply AppendFloat64_src | apply AppendFloat32_src | apply AppendFloats64_src | apply AppendFloats32_src | apply AppendDuration_src | reflexivity ]; auto.
+          | apply AppendTime_src | apply AppendTimes_src | apply AppendFloat64_src | apply AppendFloat32_src | apply AppendFloats64_src | apply AppendFloats32_src | apply AppendDuration_src | apply AppendDurations_int_src | reflexivity ]; auto.
 Qed.
 
 (* the functions of internal/json the translator could NOT express stay tied to the code by the
